@@ -43,7 +43,7 @@ theorem get_touch (fs : FS) (p q : RPath) :
         cases ob with
         | dir a m => exact absurd hg (hn a m)
         | file d a m => rfl
-        | symlink t a => rfl
+        | symlink t a lm => rfl
         | dev ma mi a m => rfl
   · rw [if_neg h]; exact get_touch_ne _ h
 
@@ -83,10 +83,10 @@ theorem walk_dirs (fs : FS) (follow : Bool) :
         | none => simp [hg]
         | some ob =>
           cases ob with
-          | symlink t a =>
+          | symlink t a lm =>
             cases follow with
             | false => simp [hg]
-            | true => exact absurd hg (hL rfl (by simp) t a)
+            | true => exact absurd hg (hL rfl (by simp) t a lm)
           | dir a m => simp [hg, walk]
           | file d a m => simp [hg]
           | dev ma mi a m => simp [hg]
@@ -202,7 +202,7 @@ theorem mkdir_fresh (h : Good fs dst) (hn : fs.get dst = none) :
   simp [resolve_nofollow h, bind, Except.bind, h.ne, hn, h.parent, pure, Except.pure]
 
 theorem symlinkAt_fresh (target : Bytes) (h : Good fs dst) (hn : fs.get dst = none) :
-    symlinkAt fs target dst = .ok ((fs.set dst (.symlink target {})).touch dst.dropLast) := by
+    symlinkAt fs target dst = .ok ((fs.set dst (.symlink target {} none)).touch dst.dropLast) := by
   unfold symlinkAt
   simp [resolve_nofollow h, bind, Except.bind, h.ne, hn, h.parent, pure, Except.pure]
 
@@ -271,6 +271,12 @@ theorem chtimes_some {ob : Obj} (t : Nat) (h : Good fs dst) (hg : fs.get dst = s
     chtimes fs dst t = .ok (fs.set dst (ob.withMtime (some t))) := by
   unfold chtimes
   simp [resolve_ok h (fun _ => hg ▸ hL), bind, Except.bind, hg, pure, Except.pure]
+
+/-- `utimensat(AT_SYMLINK_NOFOLLOW)`: whatever the object is, links included -/
+theorem lchtimes_some {ob : Obj} (t : Nat) (h : Good fs dst) (hg : fs.get dst = some ob) :
+    lchtimes fs dst t = .ok (fs.set dst (ob.withMtime (some t))) := by
+  unfold lchtimes
+  simp [resolve_nofollow h, bind, Except.bind, hg, pure, Except.pure]
 
 end calls
 
@@ -455,11 +461,11 @@ structure Slots (k : Attr → Option Nat → Obj) : Prop where
   notLink : ∀ a t, NotLink (some (k a t))
 
 theorem slots_dir : Slots Obj.dir :=
-  ⟨fun _ _ _ => rfl, fun _ _ => rfl, fun _ _ _ => rfl, fun _ _ _ _ e => by cases e⟩
+  ⟨fun _ _ _ => rfl, fun _ _ => rfl, fun _ _ _ => rfl, fun _ _ _ _ _ e => by cases e⟩
 theorem slots_file (d : Bytes) : Slots (Obj.file d) :=
-  ⟨fun _ _ _ => rfl, fun _ _ => rfl, fun _ _ _ => rfl, fun _ _ _ _ e => by cases e⟩
+  ⟨fun _ _ _ => rfl, fun _ _ => rfl, fun _ _ _ => rfl, fun _ _ _ _ _ e => by cases e⟩
 theorem slots_dev (ma mi : Nat) : Slots (Obj.dev ma mi) :=
-  ⟨fun _ _ _ => rfl, fun _ _ => rfl, fun _ _ _ => rfl, fun _ _ _ _ e => by cases e⟩
+  ⟨fun _ _ _ => rfl, fun _ _ => rfl, fun _ _ _ => rfl, fun _ _ _ _ _ e => by cases e⟩
 
 section tail
 variable {k : Attr → Option Nat → Obj} {fs0 f1 : FS} {dst : List Name}
@@ -539,7 +545,7 @@ theorem createDir_existing (o : Opts) (root : List Name) (s : LState) (name : By
   simp only [Obj.isDir, ↓reduceIte]
   refine Tri.bind (Q := fun f => f = s.fs) (Tri.pure rfl) ?_
   rintro _ rfl
-  refine Tri.bind (setPerms_okay o m h hg (by intro t a e; cases e) (fun _ _ _ => rfl)) ?_
+  refine Tri.bind (setPerms_okay o m h hg (by intro t a lm e; cases e) (fun _ _ _ => rfl)) ?_
   intro f2 hf2
   have hob : (Obj.dir a₀ m₀).withAttr (permsAttr o m (Obj.dir a₀ m₀).isDir (Obj.dir a₀ m₀).attr) =
       .dir (permsAttr o m true a₀) m₀ := rfl
@@ -549,7 +555,7 @@ theorem createDir_existing (o : Opts) (root : List Name) (s : LState) (name : By
     exact Tri.pure ⟨hf2.other, hf2.self, by simp⟩
   · rename_i h0
     refine Tri.bind (Q := fun f3 => Upd f2 f3 dst (.dir (permsAttr o m true a₀) (some m.mtime.toNat)))
-      (Okay.sys (chtimes_some m.mtime.toNat hf2.good hf2.self (by intro t a e; cases e))
+      (Okay.sys (chtimes_some m.mtime.toNat hf2.good hf2.self (by intro t a lm e; cases e))
         (upd_set hf2.good _)) ?_
     intro f3 hf3
     exact Tri.pure ⟨(hf2.trans hf3).other, hf3.self, by simp⟩
@@ -623,52 +629,71 @@ theorem createSymlink_fresh (o : Opts) (root : List Name) (s : LState) (name : B
     (target : Bytes) (h : Good s.fs (dstOf root name)) (hn : s.fs.get (dstOf root name) = none)
     (hnd : (m.xattrs.map Prod.fst).Nodup) (hnu : o.noSameOwner = false → NoUserXattr m.xattrs) :
     ∃ s', createSymlink o root s name m target = .ok s' ∧
-      Creates s.fs s'.fs (dstOf root name) (.symlink target (linkAttrM o m)) ∧
+      Creates s.fs s'.fs (dstOf root name) (.symlink target (linkAttrM o m) (mtimeM m)) ∧
       s'.dirTimes = s.dirTimes := by
   apply Okay.elim (Q := fun s' : LState => Creates s.fs s'.fs (dstOf root name)
-      (.symlink target (linkAttrM o m)) ∧ s'.dirTimes = s.dirTimes)
+      (.symlink target (linkAttrM o m) (mtimeM m)) ∧ s'.dirTimes = s.dirTimes)
   unfold createSymlink
   generalize dstOf root name = dst at *
   simp only []
   rw [unlinkIfThere_fresh h hn]
   refine Tri.bind (Q := fun f => f = s.fs) (Tri.pure rfl) ?_
   rintro _ rfl
-  refine Tri.bind (Q := fun f => Creates s.fs f dst (.symlink target {}))
+  refine Tri.bind (Q := fun f => Creates s.fs f dst (.symlink target {} none))
     (Okay.sys (symlinkAt_fresh target h hn) (creates_create s.fs h.ne _)) ?_
   intro f1 hf1
   have hG1 := h.creates hf1
-  simp only [pure_bind]
+  -- the link's own mtime, not following it
+  have tail : ∀ f4 : FS, Creates s.fs f4 dst (.symlink target (linkAttrM o m) none) →
+      Okay (fun s' : LState => Creates s.fs s'.fs dst (.symlink target (linkAttrM o m) (mtimeM m)) ∧
+          s'.dirTimes = s.dirTimes)
+        (if m.mtime = 0 then (Pure.pure { fs := f4, dirTimes := s.dirTimes } : Except FS LState)
+          else (sys f4 (lchtimes f4 dst m.mtime.toNat) >>= fun fs =>
+            (Pure.pure { fs := fs, dirTimes := s.dirTimes } : Except FS LState))) := by
+    intro f4 hf4
+    have hG4 := h.creates hf4
+    split
+    · rename_i h0
+      exact Tri.pure ⟨by rw [mtimeM_zero h0]; exact hf4, rfl⟩
+    · rename_i h0
+      have hu := upd_set hG4 (.symlink target (linkAttrM o m) (some m.mtime.toNat))
+      refine Tri.bind (Q := fun f => Creates s.fs f dst
+          (.symlink target (linkAttrM o m) (some m.mtime.toNat)))
+        (Okay.sys (lchtimes_some m.mtime.toNat hG4 hf4.get_self) (hf4.upd hu.other hu.self)) ?_
+      intro f5 hf5
+      exact Tri.pure ⟨by rw [mtimeM_pos h0]; exact hf5, rfl⟩
+  -- lchown + lsetxattr
   cases hO : o.noSameOwner with
   | true =>
-    simp only [↓reduceIte]
+    simp only [↓reduceIte, pure_bind]
     have e : linkAttrM o m = {} := by simp [linkAttrM, hO]
-    rw [e]
-    exact Tri.pure ⟨hf1, rfl⟩
+    exact tail f1 (by rw [e]; exact hf1)
   | false =>
     simp only [Bool.false_eq_true, ↓reduceIte]
-    refine Tri.bind (Q := fun f => Upd f1 f dst ((Obj.symlink target {}).withAttr
+    refine Tri.bind (Q := fun f => Upd f1 f dst ((Obj.symlink target {} none).withAttr
         (chownAttr false {} m.uid.toNat m.gid.toNat)))
       (Okay.sys (chown_some false _ _ hG1 hf1.get_self (by intro hf; cases hf)) (upd_set hG1 _)) ?_
     intro f2 hf2
-    refine Tri.bind (setXattrs_okay (Obj.symlink target {}) m.xattrs f2 _ hf2.good hf2.self
+    refine Tri.bind (setXattrs_okay (Obj.symlink target {} none) m.xattrs f2 _ hf2.good hf2.self
       (fun kv hkv => by simp [xaOK, hnu hO kv hkv])) ?_
     intro f3 hf3
-    have e : (Obj.symlink target {}).withAttr
+    have e : (Obj.symlink target {} none).withAttr
         { chownAttr false {} m.uid.toNat m.gid.toNat with
           xattrs := xaFold (chownAttr false {} m.uid.toNat m.gid.toNat).xattrs m.xattrs } =
-        .symlink target (linkAttrM o m) := by
+        .symlink target (linkAttrM o m) none := by
       simp [Obj.withAttr, linkAttrM, chownAttr, hO, xaFold_nil_left hnd]
     rw [e] at hf3
     have hu := hf2.trans hf3
-    exact Tri.pure ⟨hf1.upd hu.other hu.self, rfl⟩
+    exact tail f3 (hf1.upd hu.other hu.self)
 
 /-- **EPERM**: with ownership/xattrs being restored, a symbolic link record carrying a `user.*` extended
     attribute makes `CreateSymlink` fail (the link itself has been created by then) -/
 theorem setXattrs_link_fails {dst : List Name} (target : Bytes) :
-    ∀ (xs : List (Bytes × Bytes)) (fs : FS) (a : Attr), Good fs dst → fs.get dst = some (.symlink target a) →
+    ∀ (xs : List (Bytes × Bytes)) (fs : FS) (a : Attr) (lm : Option Nat), Good fs dst →
+      fs.get dst = some (.symlink target a lm) →
       (∃ kv ∈ xs, isUserXattr kv.1 = true) → ∃ f, setXattrs fs dst xs = .error f
-  | [], _, _, _, _, hx => by obtain ⟨_, h, _⟩ := hx; cases h
-  | (k, v) :: rest, fs, a, h, hg, hx => by
+  | [], _, _, _, _, _, hx => by obtain ⟨_, h, _⟩ := hx; cases h
+  | (k, v) :: rest, fs, a, lm, h, hg, hx => by
     rw [setXattrs]
     cases hk : isUserXattr k with
     | true =>
@@ -676,14 +701,14 @@ theorem setXattrs_link_fails {dst : List Name} (target : Bytes) :
       exact ⟨fs, rfl⟩
     | false =>
       rw [lsetxattr_some k v h hg (by simp [xaOK, hk])]
-      have hu := upd_set h ((Obj.symlink target a).withAttr
-        { (Obj.symlink target a).attr with xattrs := xaSet (Obj.symlink target a).attr.xattrs k v })
+      have hu := upd_set h ((Obj.symlink target a lm).withAttr
+        { (Obj.symlink target a lm).attr with xattrs := xaSet (Obj.symlink target a lm).attr.xattrs k v })
       obtain ⟨kv, hkv, hkvu⟩ := hx
       have hrest : ∃ kv ∈ rest, isUserXattr kv.1 = true := by
         rcases List.mem_cons.1 hkv with rfl | hkv
         · rw [hk] at hkvu; cases hkvu
         · exact ⟨kv, hkv, hkvu⟩
-      exact setXattrs_link_fails target rest _ _ hu.good hu.self hrest
+      exact setXattrs_link_fails target rest _ _ _ hu.good hu.self hrest
 
 theorem createSymlink_user_xattr_fails (o : Opts) (root : List Name) (s : LState) (name : Bytes) (m : Meta)
     (target : Bytes) (h : Good s.fs (dstOf root name)) (hn : s.fs.get (dstOf root name) = none)
@@ -692,11 +717,11 @@ theorem createSymlink_user_xattr_fails (o : Opts) (root : List Name) (s : LState
   unfold createSymlink
   generalize dstOf root name = dst at *
   simp only []
-  have hc := creates_create s.fs h.ne (Obj.symlink target {})
+  have hc := creates_create s.fs h.ne (Obj.symlink target {} none)
   have hG1 := h.creates hc
-  have hu := upd_set hG1 ((Obj.symlink target {}).withAttr
-    (chownAttr (Obj.symlink target {}).isDir (Obj.symlink target {}).attr m.uid.toNat m.gid.toNat))
-  obtain ⟨f, hf⟩ := setXattrs_link_fails target m.xattrs _ _ hu.good hu.self hx
+  have hu := upd_set hG1 ((Obj.symlink target {} none).withAttr
+    (chownAttr (Obj.symlink target {} none).isDir (Obj.symlink target {} none).attr m.uid.toNat m.gid.toNat))
+  obtain ⟨f, hf⟩ := setXattrs_link_fails target m.xattrs _ _ _ hu.good hu.self hx
   rw [unlinkIfThere_fresh h hn]
   simp only [bind, Except.bind]
   rw [symlinkAt_fresh target h hn]
